@@ -26,7 +26,7 @@ MemLayer &MemLayer::get() { static MemLayer m; return m; }
 void MemLayer::begin_run(const MemEnv &e) {
   env = e;
   for (int t = 0; t < MAX_TASKS; t++) { op_reqs[t].clear(); op_faults[t].clear(); fallible_seen[t] = 0; }
-  serial = 0;
+  serial = 0; soft_calls = 0;
   stats.clear();
 }
 void MemLayer::begin_op(int task, const std::vector<int> &faults, bool hugetlb_ok) {
@@ -61,7 +61,7 @@ static bool fault_due(MemLayer &m, int t, int k) {
 }
 static void log_req(MemLayer &m, int t, const MemReq &rq) {
   m.op_reqs[t].push_back(rq);
-  static const char *kn[] = {"malloc", "realloc", "free", "mmap", "munmap"};
+  static const char *kn[] = {"malloc", "realloc", "free", "mmap", "munmap", "memory-syscall"};
   ev(vfmt("mem t%d op%d %s size=%zu k=%d%s%s%s", t, cur_op(t), kn[rq.kind], rq.size, rq.k,
           rq.hugetlb ? " hugetlb" : "", rq.failed ? " FAILED" : "", rq.injected ? " injected" : ""));
   m.stats[std::string("req_") + kn[rq.kind]]++;
@@ -95,6 +95,7 @@ void MemLayer::h_free(void *p) {
 extern "C" {
 
 void *sim_malloc(size_t n) {
+  thr::co_yield_point("malloc");
   MemLayer &m = MemLayer::get(); int t = cur_task();
   int k = ++m.fallible_seen[t];
   bool inj = fault_due(m, t, k);
@@ -112,6 +113,7 @@ void *sim_calloc(size_t a, size_t b) {
 }
 
 void sim_free(void *p) {
+  thr::co_yield_point("free");
   if (!p) return;
   MemLayer &m = MemLayer::get(); int t = cur_task();
   auto it = m.live.find((uintptr_t)p);
@@ -126,6 +128,7 @@ void sim_free(void *p) {
 }
 
 void *sim_realloc(void *p, size_t n) {
+  thr::co_yield_point("realloc");
   MemLayer &m = MemLayer::get(); int t = cur_task();
   int k = ++m.fallible_seen[t];
   bool inj = fault_due(m, t, k);
@@ -195,12 +198,18 @@ void *sim_mmap(void *addr, size_t len, int prot, int flags, int fd, off_t off) {
   if (huge && !inj && !envfail) m.stats["hugetlb_granted"]++;
   if (inj) {
     // mmap(2) documents more than ENOMEM; which one an injected failure reports is a seeded environment choice
-    static const int codes[] = {ENOMEM, ENOMEM, ENOMEM, EAGAIN, EPERM, ENFILE, ENODEV, EOVERFLOW};
-    errno = codes[(m.env.fill_seed + (uint64_t)k * 7 + m.serial) % 8];
+    static const int codes[] = {ENOMEM, ENOMEM, ENOMEM, EAGAIN, EPERM, ENFILE, ENODEV, EOVERFLOW, EINVAL, ENOSYS, EACCES, EBADF};
+    errno = codes[(m.env.fill_seed + (uint64_t)k * 7 + m.serial) % 12];
     m.stats[std::string("fault_mmap_errno_") + std::to_string(errno)]++;
     return MAP_FAILED;
   }
-  if (envfail) { errno = ENOMEM; return MAP_FAILED; }
+  if (envfail) {
+    // a refused huge-page attempt reports what the kernel of this run reports for it: ENOMEM (no pages in the pool),
+    // EINVAL (built without hugetlbfs / size not supported), ENOSYS, EPERM (not allowed to use the pool)
+    static const int hcodes[] = {ENOMEM, ENOMEM, ENOMEM, ENOMEM, EINVAL, EINVAL, ENOSYS, EPERM};
+    errno = (huge && !overlimit && !toobig) ? hcodes[(m.env.fill_seed >> 7) % 8] : ENOMEM;
+    return MAP_FAILED;
+  }
   int rflags = flags & ~(MAP_HUGETLB | (0x3f << MAP_HUGE_SHIFT));
   void *p = mmap(addr, len, prot, rflags, fd, off);
   if (p == MAP_FAILED) {
@@ -210,6 +219,7 @@ void *sim_mmap(void *addr, size_t len, int prot, int flags, int fd, off_t off) {
   Block b{len, t, cur_op(t), true, false, false, ++m.serial};
   m.live[(uintptr_t)p] = b;
   thr::region_add(p, len, t, "lib-mmap");
+  thr::co_yield_point("mmap-granted");
   return p;
 }
 void *sim_mmap64(void *addr, size_t len, int prot, int flags, int fd, off_t off) {
@@ -217,6 +227,7 @@ void *sim_mmap64(void *addr, size_t len, int prot, int flags, int fd, off_t off)
 }
 
 int sim_munmap(void *p, size_t len) {
+  thr::co_yield_point("munmap");
   MemLayer &m = MemLayer::get(); int t = cur_task();
   int k = ++m.fallible_seen[t];
   bool inj = fault_due(m, t, k);
@@ -233,6 +244,29 @@ int sim_munmap(void *p, size_t len) {
   munmap(p, len);
   return 0;
 }
+
+// Fallible system calls about memory that the current tree does not make (madvise, mlock, mprotect ...).  If a tree
+// starts making one, it becomes one more fallible request of the call: it has a position k in the call's sequence, so the
+// exhaustive single-fault enumeration and the fault histories fail it like any allocation (with the errno values the
+// man pages list for it); otherwise it succeeds without doing anything (no harm for advice/locking calls).
+static int mem_syscall(const char *name, size_t len, const int *codes, int ncodes) {
+  thr::co_yield_point(name);
+  MemLayer &m = MemLayer::get(); int t = cur_task();
+  int k = ++m.fallible_seen[t];
+  bool inj = fault_due(m, t, k);
+  if (!inj && m.env.soft_fault_pct) { uint64_t x = m.env.fill_seed * 0x9e3779b97f4a7c15ULL + (uint64_t)k * 0x632be59bd9b4e019ULL + m.soft_calls++; inj = (splitmix64(x) % 100) < (uint64_t)m.env.soft_fault_pct; }
+  log_req(m, t, MemReq{RQ_SYSCALL, len, false, inj, inj, k});
+  m.stats[std::string("memory_syscall_") + name]++;
+  if (inj) { errno = codes[(m.env.fill_seed + (uint64_t)k * 5 + m.serial) % (uint64_t)ncodes]; return -1; }
+  return 0;
+}
+int sim_madvise(void *, size_t len, int) { static const int c[] = {EPERM, ENOMEM, EAGAIN, EACCES, EIO, EBADF}; return mem_syscall("madvise", len, c, 6); }
+int sim_posix_madvise(void *, size_t len, int) { static const int c[] = {ENOMEM, EINVAL}; int r = mem_syscall("posix_madvise", len, c, 2); return r ? errno : 0; }
+int sim_mlock(const void *, size_t len) { static const int c[] = {ENOMEM, EPERM, EAGAIN}; return mem_syscall("mlock", len, c, 3); }
+int sim_mlock2(const void *, size_t len, unsigned) { static const int c[] = {ENOMEM, EPERM, EAGAIN}; return mem_syscall("mlock2", len, c, 3); }
+int sim_munlock(const void *, size_t len) { static const int c[] = {ENOMEM, EPERM}; return mem_syscall("munlock", len, c, 2); }
+int sim_mprotect(void *, size_t len, int) { static const int c[] = {ENOMEM, EACCES, EPERM}; return mem_syscall("mprotect", len, c, 3); }
+int sim_mincore(void *, size_t len, unsigned char *vec) { static const int c[] = {ENOMEM, EAGAIN}; int r = mem_syscall("mincore", len, c, 2); if (!r && vec) memset(vec, 1, (len + 4095) / 4096); return r; }
 
 void sim_arc4random_buf(void *buf, size_t n) { EntropyDev::get().fill(cur_task(), buf, n); }
 
